@@ -10,7 +10,6 @@ import (
 	"net"
 	"net/http"
 	"os"
-	"regexp"
 	"sort"
 	"strings"
 	"time"
@@ -125,22 +124,37 @@ func init() {
 				cfg.ExcludeHosts = strList(in, "excludeHosts")
 				cfg.ExcludeString = strList(in, "excludeStrings")
 				cfg.ExclusionRegexes = nil
-				for _, re := range strList(in, "regexes") {
-					if r, err := regexp.Compile(re); err == nil {
-						cfg.ExclusionRegexes = append(cfg.ExclusionRegexes, r)
+				cfg.ExclusionFile = nil
+				if res := strList(in, "regexes"); len(res) > 0 {
+					// through the real exclusion-file reader: one regex per line, last line with or without a newline
+					f, err := os.CreateTemp("", "verif-excl-")
+					if err != nil {
+						return "harness-error " + err.Error()
 					}
+					text := strings.Join(res, "\n")
+					if boolean(in, "exclusionFileTrailingNewline", true) {
+						text += "\n"
+					}
+					f.WriteString(text)
+					f.Close()
+					defer os.Remove(f.Name())
+					cfg.ExclusionFile = []string{f.Name()}
 				}
 				cfg.DisableAssetsCapture = boolean(in, "disableAssets", false)
 				cfg.MaxHops = num(in, "maxHops", 0)
 				cfg.MaxRedirect = num(in, "maxRedirect", 20)
 				cfg.DisableSeencheck = boolean(in, "disableSeencheck", false)
 				cfg.UseSeencheck = !cfg.DisableSeencheck
-				cfg.UseHQ = boolean(in, "useHQ", false)
 				cfg.UserAgent = "verif"
 				domainscrawl.Reset()
-				if dc := strList(in, "domainsCrawl"); len(dc) > 0 {
-					domainscrawl.AddElements(dc)
+				cfg.DomainsCrawl = strList(in, "domainsCrawl")
+				cfg.Job = "verif"
+				// the rest of the effective configuration (default excluded hosts, exclusion regexes,
+				// domains-crawl patterns) is derived by the real GenerateCrawlConfig
+				if err := config.GenerateCrawlConfig(); err != nil {
+					return "harness-error " + err.Error()
 				}
+				cfg.UseHQ = boolean(in, "useHQ", false)
 				if boolean(in, "resetSeen", true) {
 					stopHQ()
 					if cfg.UseHQ {
